@@ -17,12 +17,12 @@ use poulpy_cpu_ref::{FFT64Ref, NTT120Ref};
 use poulpy_hal::{
     alloc_aligned,
     api::{
-        CnvPVecAlloc, ModuleNew, ScratchOwnedAlloc, ScratchOwnedBorrow, SvpApplyDft, SvpPPolAlloc, SvpPrepare, VecZnxAddInto,
+        CnvPVecAlloc, Convolution, ModuleNew, VmpApplyDftToDft, VmpPrepare, ScratchOwnedAlloc, ScratchOwnedBorrow, SvpApplyDft, SvpPPolAlloc, SvpPrepare, VecZnxAddInto,
         VecZnxAutomorphism, VecZnxBigAlloc, VecZnxBigNormalize, VecZnxDftAlloc, VecZnxDftApply, VecZnxIdftApply,
         VecZnxIdftApplyConsume, VecZnxNormalize, VecZnxRotate, VmpPMatAlloc,
     },
     layouts::{
-        Backend, DataView, MatZnx, Module, ReaderFrom, ScalarZnx, ScratchOwned, VecZnx, VecZnxToMut, ZnxInfos, ZnxView, ZnxViewMut,
+        Backend, DataView, MatZnx, Module, VecZnxBig, VecZnxDft, ReaderFrom, ScalarZnx, ScratchOwned, VecZnx, VecZnxToMut, ZnxInfos, ZnxView, ZnxViewMut,
     },
 };
 
@@ -292,6 +292,132 @@ where
     format!("same={} {}", same as u8, ranges(&b2))
 }
 
+/// compress a sorted index list into `a-b,c-d` ranges (half-open), `-` when empty
+fn ranges_of(idx: &[usize]) -> String {
+    if idx.is_empty() {
+        return "-".into();
+    }
+    let mut out: Vec<String> = Vec::new();
+    let (mut a, mut b) = (idx[0], idx[0] + 1);
+    for &i in &idx[1..] {
+        if i == b {
+            b += 1;
+        } else {
+            out.push(format!("{a}-{b}"));
+            a = i;
+            b = i + 1;
+        }
+    }
+    out.push(format!("{a}-{b}"));
+    out.join(",")
+}
+
+/// Footprint recorder: the call is made twice on a result buffer pre-filled with two different byte patterns inside a
+/// 0xA5 canary frame; an 8-byte element is "written" iff both runs leave the same value there; the canary frame must be
+/// untouched.  `f(res_window)` performs the call with the result view carved out of the window.
+fn footprint(bytes: usize, mut f: impl FnMut(&mut [u8])) -> String {
+    let gap = 256usize;
+    let win = (bytes + 63) / 64 * 64;
+    let mut runs: Vec<Vec<u8>> = Vec::new();
+    let mut canary_broken: Option<isize> = None;
+    for pat in [0x11u8, 0xEEu8] {
+        let mut big: Vec<u8> = alloc_aligned::<u8>(2 * gap + win);
+        big.iter_mut().for_each(|x| *x = CANARY);
+        big[gap..gap + bytes].iter_mut().enumerate().for_each(|(i, x)| *x = pat ^ (i as u8).wrapping_mul(29));
+        f(&mut big[gap..gap + bytes]);
+        for (k, x) in big.iter().enumerate() {
+            if (k < gap || k >= gap + bytes) && *x != CANARY && canary_broken.is_none() {
+                canary_broken = Some(k as isize - gap as isize);
+            }
+        }
+        runs.push(big[gap..gap + bytes].to_vec());
+    }
+    let written: Vec<usize> = (0..bytes / 8).filter(|&e| runs[0][8 * e..8 * e + 8] == runs[1][8 * e..8 * e + 8]).collect();
+    let c = match canary_broken {
+        None => "intact".to_string(),
+        Some(k) => format!("broken:{k}"),
+    };
+    format!("ok W={} canaries={c}", ranges_of(&written))
+}
+
+/// kernels with non-trivial addressing, through the public HAL API.  p = per-op parameter list (see vlib/c17.py)
+fn kern<BE: Backend>(op: &str, p: &[u64]) -> String
+where
+    Module<BE>: ModuleNew<BE>
+        + Convolution<BE>
+        + CnvPVecAlloc<BE>
+        + VecZnxDftAlloc<BE>
+        + VecZnxBigAlloc<BE>
+        + VmpPMatAlloc<BE>
+        + VmpPrepare<BE>
+        + VmpApplyDftToDft<BE>
+        + VecZnxDftApply<BE>,
+    ScratchOwned<BE>: ScratchOwnedAlloc<BE> + ScratchOwnedBorrow<BE>,
+{
+    let u = |k: usize| p.get(k).copied().unwrap_or(0) as usize;
+    let n = u(0);
+    let module: Module<BE> = Module::<BE>::new(n as u64);
+    let mut scratch: ScratchOwned<BE> = ScratchOwned::alloc(1 << 22);
+    let fillv = |v: &mut VecZnx<Vec<u8>>, s: i64| {
+        for (k, x) in v.raw_mut().iter_mut().enumerate() {
+            *x = (k as i64 * 37 + s) % 97 - 48;
+        }
+    };
+    match op {
+        // p = n, res_cols, res_size, res_col, a_cols, a_size, a_col, b_size, cnv_offset
+        "cnvconst" => {
+            let (rc, rs, rcol, ac, asz, acol, bs, off) = (u(1), u(2), u(3), u(4), u(5), u(6), u(7), u(8));
+            let mut a = VecZnx::alloc(n, ac, asz);
+            fillv(&mut a, 5);
+            let b: Vec<i64> = (0..bs as i64).map(|x| x * 3 - 4).collect();
+            let wbig = std::mem::size_of::<BE::ScalarBig>();
+            footprint(n * rc * rs * wbig, |w| {
+                let mut res: VecZnxBig<&mut [u8], BE> = VecZnxBig::from_data(w, n, rc, rs);
+                module.cnv_by_const_apply(off, &mut res, rcol, &a, acol, &b, scratch.borrow());
+            })
+        }
+        // p = n, res_cols, res_size, res_col, a_cols, a_size, a_col, b_cols, b_size, b_col, cnv_offset
+        "cnvapply" => {
+            let (rc, rs, rcol, ac, asz, acol, bc, bsz, bcol, off) = (u(1), u(2), u(3), u(4), u(5), u(6), u(7), u(8), u(9), u(10));
+            let mut av = VecZnx::alloc(n, ac, asz);
+            let mut bv = VecZnx::alloc(n, bc, bsz);
+            fillv(&mut av, 7);
+            fillv(&mut bv, 11);
+            let mut al = module.cnv_pvec_left_alloc(ac, asz);
+            let mut br = module.cnv_pvec_right_alloc(bc, bsz);
+            module.cnv_prepare_left(&mut al, &av, -1, scratch.borrow());
+            module.cnv_prepare_right(&mut br, &bv, -1, scratch.borrow());
+            let wp = std::mem::size_of::<BE::ScalarPrep>();
+            footprint(n * rc * rs * wp, |w| {
+                let mut res: VecZnxDft<&mut [u8], BE> = VecZnxDft::from_data(w, n, rc, rs);
+                module.cnv_apply_dft(off, &mut res, rcol, &al, acol, &br, bcol, scratch.borrow());
+            })
+        }
+        // p = n, rows, cols_in, cols_out, size, a_size, res_size, limb_offset
+        "vmpapply" => {
+            let (rows, ci, co, sz, asz, rsz, lo) = (u(1), u(2), u(3), u(4), u(5), u(6), u(7));
+            let mut mat = MatZnx::alloc(n, rows, ci, co, sz);
+            for (k, x) in mat.raw_mut().iter_mut().enumerate() {
+                *x = (k as i64 * 13 + 1) % 31 - 15;
+            }
+            let mut pm = module.vmp_pmat_alloc(rows, ci, co, sz);
+            module.vmp_prepare(&mut pm, &mat, scratch.borrow());
+            let mut av = VecZnx::alloc(n, ci, asz);
+            fillv(&mut av, 3);
+            let mut ad = module.vec_znx_dft_alloc(ci, asz);
+            for c in 0..ci {
+                module.vec_znx_dft_apply(1, 0, &mut ad, c, &av, c);
+            }
+            let wp = std::mem::size_of::<BE::ScalarPrep>();
+            footprint(n * co * rsz * wp, |w| {
+                let mut res: VecZnxDft<&mut [u8], BE> = VecZnxDft::from_data(w, n, co, rsz);
+                module.vmp_apply_dft_to_dft(&mut res, &ad, &pm, lo, scratch.borrow());
+            })
+        }
+        _ => "bad-op".into(),
+    }
+}
+
 pub fn run(_args: &[String]) {
     std::panic::set_hook(Box::new(|_| {}));
     let stdin = std::io::stdin();
@@ -325,6 +451,19 @@ pub fn run(_args: &[String]) {
                 });
                 // the only panics of allocation + accessors are their assertions
                 r.unwrap_or_else(|_| "panic:assert".to_string())
+            }
+            "kern" => {
+                let be = kv(&t, "be").unwrap_or("fft64ref").to_string();
+                let o = kv(&t, "op").unwrap_or("").to_string();
+                let p = nums(kv(&t, "p"));
+                let r = std::panic::catch_unwind(|| match be.as_str() {
+                    "fft64ref" => kern::<FFT64Ref>(&o, &p),
+                    "ntt120ref" => kern::<NTT120Ref>(&o, &p),
+                    "fft64avx" => kern::<FFT64Avx>(&o, &p),
+                    "ntt120avx" => kern::<NTT120Avx>(&o, &p),
+                    _ => "bad-be".into(),
+                });
+                r.unwrap_or_else(|e| format!("panic:{}", panic_class(&e)))
             }
             "canary" => {
                 let n = kv(&t, "n").and_then(|x| x.parse().ok()).unwrap_or(8usize);
